@@ -33,6 +33,7 @@ EXTRA = {
     "fp": dict(decl="fp: fn(i64) -> i64", arg="fpid", ptr="fn(i64) -> i64"),
     "cl": dict(decl="cl: impl Fn(i64) -> i64 + ::core::marker::Send", arg="fpid", ptr="fn(i64) -> i64"),
     "bx": dict(decl="bx: ::std::boxed::Box<dyn Bound + ::core::marker::Send>", arg="::std::boxed::Box::new(3i64)", ptr="::std::boxed::Box<dyn Bound + ::core::marker::Send>"),
+    "mu": dict(decl="m: &mut i64", arg="&mut 5i64", ptr="&'b mut i64", ref=True),
     "sl": dict(decl="sl: &[u8]", arg="&[1u8, 2]", ptr="&'b [u8]", ref=True),
     "tu": dict(decl="tu: (i64, &str)", arg="(1, \"s\")", ptr="(i64, &'b str)", ref=True),
     # a where-predicate that names 'static / a for<>-bound lifetime BEFORE a lifetime of the fn
@@ -88,7 +89,7 @@ def enumerate_states(tier):
             continue            # mock_api only switches unimock on with the crate feature; off it is covered by C04/C10
         if tier != "thorough" and feature and o in ("", "?Send") and q not in ("", "async"):
             continue
-        if tier != "thorough" and any(x in ("dp", "mb", "wl", "lw", "li", "ws", "wh", "wf", "dy", "fp", "cl", "bx", "sl", "tu") for x in w) and (o != "" or deps not in ("impl", "nodeps", "conc", "gi", "gil")):
+        if tier != "thorough" and any(x in ("dp", "mb", "wl", "lw", "li", "ws", "wh", "wf", "dy", "fp", "cl", "bx", "sl", "tu", "mu") for x in w) and (o != "" or deps not in ("impl", "nodeps", "conc", "gi", "gil")):
             continue            # the feature only matters through the mock options
         key = "g_%s_%s_%s_%s_%s_%s" % (deps, "_".join(w) or "0", {"": "s", "async": "a", "unsafe": "u", 'extern "C"': "e", 'unsafe extern "C"': "ue", "async unsafe": "au"}[q],
                                        r, {"": "p", "mock": "m", "mockall": "ma", "?Send": "ms"}[o], "fon" if feature else "foff")
